@@ -136,6 +136,8 @@ func (gme *GCPMultiEndpoint) NewStream(ctx context.Context, desc *grpc.StreamDes
 }
 
 func (gme *GCPMultiEndpoint) pickConn(ctx context.Context) *grpc.ClientConn {
+	gme.mu.RLock()
+	defer gme.mu.RUnlock()
 	name, ok := FromMEContext(ctx)
 	me, ook := gme.mes[name]
 	if !ok || !ook {
